@@ -116,7 +116,16 @@ def tlc_shape(trees, procs=4):
     if not trees:
         return {}
     d = vlib.scratch()
-    parts = [trees[i::procs] for i in range(procs)]
+    # identical trees (many enumerated cases end in the same pages) are judged once
+    by_content, alias = {}, {}
+    for t in trees:
+        key = json.dumps(t["tree"], sort_keys=True)
+        if key in by_content:
+            alias[t["id"]] = by_content[key]["id"]
+        else:
+            by_content[key] = t
+    uniq = list(by_content.values())
+    parts = [uniq[i::procs] for i in range(procs)]
     verdicts, errs, ths = {}, [], []
 
     def work(i, part):
@@ -139,6 +148,9 @@ def tlc_shape(trees, procs=4):
     [t.join() for t in ths]
     if errs:
         raise errs[0] if isinstance(errs[0], vlib.ToolError) else vlib.ToolError("tlc_shape: %r" % errs[0])
+    for tid, rep in alias.items():
+        verdicts[tid] = verdicts[rep]
+    verdicts["#distinct"] = len(uniq)
     return verdicts
 
 
@@ -186,13 +198,13 @@ def pipeline(chk, want_shape_tlc):
     for i, c in enumerate(bfs):
         c["hint"] = HINTS[i % 3]
         c["store"] = "mmap" if i % 12 == 0 else "mem"
-        c["dump"] = "last" if i % (2 if thorough else 12) == 0 else "none"
+        c["dump"] = "last" if i % (2 if thorough else 40) == 0 else "none"
     groups.append(("u6", uni6, bfs))
     # --- cells that are not SplitSafe
     unib, big, st = got["big"]
     gstats["big"] = dict(st, emitted=len(big))
     for i, c in enumerate(big):
-        c["hint"] = HINTS[i % 3]; c["store"] = "mem"; c["dump"] = "last" if i % 4 == 0 else "none"
+        c["hint"] = HINTS[i % 3]; c["store"] = "mem"; c["dump"] = "last" if i % (4 if thorough else 20) == 0 else "none"
     groups.append(("ubig", unib, big))
     # --- walks, each under the three hint modes
     for tag, cfg, num in walks_cfg:
@@ -201,7 +213,7 @@ def pipeline(chk, want_shape_tlc):
         for wi, w in enumerate(walks):
             for hi, h in enumerate(HINTS):
                 cs.append({"w": w["w"], "steps": w["steps"], "hint": h, "store": "mmap",
-                           "dump": "all" if hi == wi % 3 else "every:%d" % (5 if thorough else 12)})
+                           "dump": "all" if hi == wi % 3 and (thorough or wi < 2) else "every:%d" % (5 if thorough else 24)})
         groups.append((tag, uni, cs))
         gstats[tag] = {"walks": len(walks), "steps": sum(len(w["steps"]) for w in walks), "motifs": dict(collections.Counter(w["w"] for w in walks))}
     chk.mark("tlc_gen")
